@@ -21,7 +21,8 @@
 //     "network": the next token of an entry is a function of exactly its
 //     visible history, supplied by the harness (SimConfig.Next).
 //   - SamplingContext: returns the scripted token of the requested batch row.
-//   - clip / mllama / quantize / grammar: inert stubs.
+//   - clip: a projector that turns image bytes into embeddings chosen by the
+//     harness (RegisterSimClip); mllama / quantize / grammar: inert stubs.
 //
 // No build tag and standard library only: the driver's `go list` runs without
 // -tags verif, and the file must also compile as part of the /verif module.
@@ -39,7 +40,7 @@ import (
 
 // VisEnt is one entry of the history visible to a batch entry.
 type VisEnt struct {
-	Tok   int // token id; -1 for an image embedding
+	Tok   int // token id; EmbedID(vector) < 0 for an image embedding
 	Pos   int // position the cell carries (what RoPE encodes after pending shifts were applied)
 	Cell  int // cell index (diagnostics only)
 	Batch int // index of the batch entry that stored the cell in the current Decode, else -1
@@ -101,11 +102,33 @@ type OpInfo struct {
 
 var simModels = map[string]*SimConfig{}
 
+// simClips: projector path -> embedding generator (RegisterSimClip).
+var simClips = map[string]func(data []byte) ([][]float32, error){}
+
+// RegisterSimClip makes GetModelArch(path) report "clip" and NewClipContext(path) return a
+// projector whose NewEmbed calls embed (image bytes -> one embedding per image token).
+func RegisterSimClip(path string, embed func(data []byte) ([][]float32, error)) {
+	simClips[path] = embed
+}
+
+// EmbedID is the payload recorded in a cache cell that holds an image embedding:
+// a negative number derived from the first two components of the vector (the
+// simulated projector puts the image id and the row index there).
+func EmbedID(embed []float32) int {
+	if len(embed) < 2 {
+		return -1
+	}
+	return -(1 + int(embed[0])*64 + int(embed[1]))
+}
+
 // RegisterSimModel makes LoadModelFromFile(path) return a model with this configuration.
 func RegisterSimModel(path string, cfg *SimConfig) { simModels[path] = cfg }
 
 // ResetSimModels forgets every registered model (start of a run).
-func ResetSimModels() { simModels = map[string]*SimConfig{} }
+func ResetSimModels() {
+	simModels = map[string]*SimConfig{}
+	simClips = map[string]func(data []byte) ([][]float32, error){}
+}
 
 // NewSimModel builds a model directly.
 func NewSimModel(cfg *SimConfig) *Model { return &Model{sim: cfg} }
@@ -128,7 +151,7 @@ type Cell struct {
 	Pos   int   // -1: empty
 	Delta int   // accumulated shift not yet applied to the K data
 	Seqs  []int // sorted set of sequence ids
-	Tok   int   // payload: the token whose K/V the cell holds (-1: embedding)
+	Tok   int   // payload: the token whose K/V the cell holds (EmbedID < 0: an image embedding)
 	Rope  int   // the position the K data currently encodes (Pos once pending shifts are applied)
 	batch int   // index of the batch entry that wrote it during the current Decode (-1 otherwise)
 }
@@ -536,6 +559,9 @@ func (kv *kvCache) restore() {
 func BackendInit() {}
 
 func GetModelArch(modelPath string) (string, error) {
+	if _, ok := simClips[modelPath]; ok {
+		return "clip", nil
+	}
 	return "", errors.New("unable to load model file")
 }
 
@@ -691,7 +717,7 @@ func (c *Context) Decode(batch *Batch) error {
 			}
 			tok := r.tok
 			if r.embed != nil {
-				tok = -1
+				tok = EmbedID(r.embed)
 			}
 			st.hist = append(st.hist, VisEnt{Tok: tok, Pos: r.pos, Cell: seq, Batch: i})
 			st.pos = r.pos
@@ -730,7 +756,7 @@ func (c *Context) Decode(batch *Batch) error {
 				cl := &kv.cells[head+k]
 				tok := r.tok
 				if r.embed != nil {
-					tok = -1
+					tok = EmbedID(r.embed)
 				}
 				*cl = Cell{Pos: r.pos, Rope: r.pos, Tok: tok, batch: start + k}
 				for _, s := range r.seqs {
@@ -749,7 +775,7 @@ func (c *Context) Decode(batch *Batch) error {
 				seq := r.seqs[0]
 				tok := r.tok
 				if r.embed != nil {
-					tok = -1
+					tok = EmbedID(r.embed)
 				}
 				row := DecodeRow{Index: i, Tok: tok, Embed: r.embed != nil, Pos: r.pos, Seqs: append([]int(nil), r.seqs...), Logits: r.logits}
 				for ci := 0; ci < kv.n; ci++ {
@@ -980,16 +1006,25 @@ func Quantize(infile, outfile string, ftype uint32) error {
 }
 
 // vision processing
-type ClipContext struct{}
+type ClipContext struct {
+	embed func(data []byte) ([][]float32, error)
+}
 
 func NewClipContext(llamaContext *Context, modelPath string) (*ClipContext, error) {
-	return nil, fmt.Errorf("unable to load clip model: %v", modelPath)
+	f := simClips[modelPath]
+	if f == nil {
+		return nil, fmt.Errorf("unable to load clip model: %v", modelPath)
+	}
+	return &ClipContext{embed: f}, nil
 }
 
 func (c *ClipContext) Free() {}
 
 func (c *ClipContext) NewEmbed(llamaContext *Context, data []byte) ([][]float32, error) {
-	return nil, errors.New("unable to make llava embedding from image")
+	if c.embed == nil {
+		return nil, errors.New("unable to make llava embedding from image")
+	}
+	return c.embed(data)
 }
 
 type MllamaContext struct{}
